@@ -108,10 +108,7 @@ def runValid (orc : Oracle) (m : PM) (f : Frame) : Option PM :=
      | some o =>
        if o.info.validCb then
          let call := CbCall.valid o.name (o.vals.map Val.snap)
-         let m' := m.addCalls [call]
-         (match orc m.k call with
-          | .fail => none
-          | _ => some m')
+         if orc m.k call = .fail then none else some (m.addCalls [call])
        else some m
      | none => some m)
   | none => some m
@@ -172,10 +169,178 @@ def callFunction (orc : Oracle) (m : PM) (f : Frame) (rest : List Frame) : PM :=
       | .user =>
         let call := CbCall.func o.name f.funcargs
         let m1 := m.addCalls [call]
-        (match orc m.k call with
-         | .fail => (m1.addDiags f1 [.callback]).reject f1 rest
-         | _ => { m1 with frames := f1 :: rest })
+        if orc m.k call = .fail then (m1.addDiags f1 [.callback]).reject f1 rest
+        else { m1 with frames := f1 :: rest }
       | .none => m.reject f1 rest
+
+def step_s0 (orc : Oracle) (m : PM) (f : Frame) (rest : List Frame) (tok : Tok) : PM :=
+  let (m, f) := handleDeprecated m f
+  (match tok with
+   | .rbrace =>
+     (match rest with
+      | [] => m.rejectWith f rest .unexpectedBrace
+      | p :: rest' =>
+        if f.level == 0 then m.rejectWith f rest .unexpectedBrace
+        else
+          let p1 := writeBack p f
+          let p2 := { p1 with cfg := p1.cfg.setLine f.cfg.line }
+          match runValid orc m p2 with
+          | none => (vetoed orc m p2).reject p2 rest'
+          | some m1 => { m1 with frames := { p2 with state := .s0 } :: rest' })
+   | .comment v =>
+     if f.cfg.flags.comments then { m with frames := { f with comment := some v } :: rest }
+     else { m with frames := f :: rest }
+   | .str v =>
+     let r := getoptPath f.cfg v
+     let m := m.addDiags f r.diags
+     (match r.ref with
+      | none =>
+        if f.cfg.flags.ignoreUnknown then { m with frames := { f with opt := none, state := .s10 } :: rest }
+        else if f.cfg.flags.keystrval then
+          -- cfg_addopt: a zeroed string option appended to the array
+          let o : Opt := .mk { name := v, ty := .str } {} [] [] none
+          let cfg' := f.cfg.setOpts (f.cfg.opts ++ [o])
+          { m with frames := { f with cfg := cfg', opt := some ⟨[], f.cfg.opts.length⟩, state := .s1 } :: rest }
+        else if v.isEmpty then m.rejectWith { f with opt := none } rest .noSuchOption
+        else m.reject { f with opt := none } rest
+      | some ref =>
+        (match f.cfg.getOpt ref with
+         | none => m.reject f rest
+         | some o =>
+           let st : PState :=
+             if o.ty == .sec then (if o.flags.title then .s6 else .s5)
+             else if o.ty == .func then .s7 else .s1
+           { m with frames := { f with opt := some ref, state := st } :: rest }))
+   | _ => m.rejectWith f rest .unexpectedToken)
+
+def step_s1 (orc : Oracle) (m : PM) (f : Frame) (rest : List Frame) (tok : Tok) : PM :=
+  (match f.opt with
+   | none => m.reject f rest
+   | some r =>
+     match f.cfg.getOpt r with
+     | none => m.reject f rest
+     | some o =>
+       let go (reset : Bool) : PM :=
+         let o' := o.setFlags { o.flags with reset := reset, modified := true }
+         let f' := { f with cfg := f.cfg.setOpt r o',
+                            state := if o.flags.list then .s3 else .s2,
+                            numValues := if o.flags.list then 0 else f.numValues }
+         { m with frames := f' :: rest }
+       match tok with
+       | .pluseq => if !o.flags.list then m.rejectWith f rest .appendNonList else go false
+       | .eq => go true
+       | _ => m.rejectWith f rest .missingEq)
+
+def step_s2 (orc : Oracle) (m : PM) (f : Frame) (rest : List Frame) (tok : Tok) : PM :=
+  let isList : Bool := match f.opt.bind f.cfg.getOpt with | some o => o.flags.list | none => false
+  (match tok with
+   | .rbrace =>
+     if isList then
+       (match f.opt, f.opt.bind f.cfg.getOpt with
+        | some r, some o =>
+          if f.numValues == 0 && o.flags.reset then
+            let (o', ev) := freeValue o
+            { (m.addCalls ev) with frames := { f with cfg := f.cfg.setOpt r o', state := .s0 } :: rest }
+          else { m with frames := { f with state := .s0 } :: rest }
+        | _, _ => { m with frames := { f with state := .s0 } :: rest })
+     else m.rejectWith f rest .unexpectedToken
+   | .str v => storeValue orc m f rest v (if isList then .s4 else .s0)
+   | _ => m.rejectWith f rest .unexpectedToken)
+
+def step_s3 (orc : Oracle) (m : PM) (f : Frame) (rest : List Frame) (tok : Tok) : PM :=
+  (match tok with
+   | .lbrace => { m with frames := { f with state := .s2 } :: rest }
+   | .str v => storeValue orc m f rest v .s0
+   | _ => m.rejectWith f rest .unexpectedToken)
+
+def step_s4 (orc : Oracle) (m : PM) (f : Frame) (rest : List Frame) (tok : Tok) : PM :=
+  (match tok with
+   | .comma => { m with frames := { f with state := .s2 } :: rest }
+   | .rbrace =>
+     (match runValid orc m f with
+      | none => (vetoed orc m f).reject f rest
+      | some m1 => { m1 with frames := { f with state := .s0 } :: rest })
+   | _ => m.rejectWith f rest .unexpectedToken)
+
+def step_s5 (orc : Oracle) (m : PM) (f : Frame) (rest : List Frame) (tok : Tok) : PM :=
+  (match tok with
+   | .lbrace =>
+     (match f.opt, f.opt.bind f.cfg.getOpt with
+      | some r, some o =>
+        let out := setopt orc m.k f.cfg.info o f.opttitle
+        let f1 := { f with cfg := f.cfg.setOpt r out.opt }
+        let m1 := (m.addCalls out.calls).addDiags f1 out.diags
+        (match out.res with
+         | none => m1.reject f1 rest
+         | some i =>
+           match out.opt.vals[i]? with
+           | some (.sec s) =>
+             let fn := match f1.cfg.info.filename with | some n => some n | none => s.info.filename
+             let s1 := s.setInfo { s.info with line := f1.cfg.line, filename := fn }
+             let child : Frame := { cfg := s1, level := f.level + 1, back := some (r, i) }
+             let f2 := { f1 with opttitle := none }
+             { m1 with frames := child :: f2 :: rest, maxDepth := max m1.maxDepth (rest.length + 2) }
+           | _ => m1.reject f1 rest)
+      | _, _ => m.reject f rest)
+   | _ => m.rejectWith f rest .missingBrace)
+
+def step_s6 (orc : Oracle) (m : PM) (f : Frame) (rest : List Frame) (tok : Tok) : PM :=
+  (match tok with
+   | .str v => { m with frames := { f with opttitle := some v, state := .s5 } :: rest }
+   | _ => m.rejectWith f rest .missingTitle)
+
+def step_s7 (orc : Oracle) (m : PM) (f : Frame) (rest : List Frame) (tok : Tok) : PM :=
+  (match tok with
+   | .lparen => { m with frames := { f with state := .s8 } :: rest }
+   | _ => m.rejectWith f rest .missingParen)
+
+def step_s8 (orc : Oracle) (m : PM) (f : Frame) (rest : List Frame) (tok : Tok) : PM :=
+  (match tok with
+   | .rparen => callFunction orc m f rest
+   | .str v => { m with frames := { f with funcargs := f.funcargs ++ [v], state := .s9 } :: rest }
+   | _ => m.rejectWith f rest .funcSyntax)
+
+def step_s9 (orc : Oracle) (m : PM) (f : Frame) (rest : List Frame) (tok : Tok) : PM :=
+  (match tok with
+   | .rparen => callFunction orc m f rest
+   | .comma => { m with frames := { f with state := .s8 } :: rest }
+   | _ => m.rejectWith f rest .funcSyntax)
+
+def step_s10 (orc : Oracle) (m : PM) (f : Frame) (rest : List Frame) (tok : Tok) : PM :=
+  let f := { f with comment := none }
+  (match tok with
+   | .pluseq => { m with frames := { f with state := .s14 } :: rest }
+   | .eq => { m with frames := { f with state := .s14 } :: rest }
+   | .lparen => { m with frames := { f with ignore := .rparen, state := .s13 } :: rest }
+   | .lbrace => { m with frames := { f with depth := 1, state := .s12 } :: rest }
+   | .str _ => { m with frames := { f with state := .s11 } :: rest }
+   | _ => m.rejectWith f rest .unexpectedToken)
+
+def step_s11 (orc : Oracle) (m : PM) (f : Frame) (rest : List Frame) (tok : Tok) : PM :=
+  (match tok with
+   | .lbrace => { m with frames := { f with depth := 1, state := .s12 } :: rest }
+   | _ => m.rejectWith f rest .unexpectedToken)
+
+def step_s12 (orc : Oracle) (m : PM) (f : Frame) (rest : List Frame) (tok : Tok) : PM :=
+  (match tok with
+   | .lbrace => { m with frames := { f with depth := f.depth + 1 } :: rest }
+   | .rbrace =>
+     if f.depth ≤ 1 then { m with frames := { f with depth := 0, state := .s0 } :: rest }
+     else { m with frames := { f with depth := f.depth - 1 } :: rest }
+   | _ => m)
+
+def step_s13 (orc : Oracle) (m : PM) (f : Frame) (rest : List Frame) (tok : Tok) : PM :=
+  let hit : Bool := match tok, f.ignore with
+    | .rparen, .rparen => true
+    | .rbrace, .rbrace => true
+    | _, _ => false
+  if hit then { m with frames := { f with ignore := .none, state := .s0 } :: rest } else m
+
+def step_s14 (orc : Oracle) (m : PM) (f : Frame) (rest : List Frame) (tok : Tok) : PM :=
+  (match tok with
+   | .lbrace => { m with frames := { f with ignore := .rbrace, state := .s13 } :: rest }
+   | .str _ => { m with frames := { f with state := .s0 } :: rest }
+   | _ => m.rejectWith f rest .unexpectedToken)
 
 /-- one token.  `nl` = line increments the scanner performed while producing it. -/
 def pstep (orc : Oracle) (m : PM) (tok : Tok) (nl : Nat) : PM :=
@@ -200,159 +365,21 @@ def pstep (orc : Oracle) (m : PM) (tok : Tok) (nl : Nat) : PM :=
       if (match tok with | .comment _ => true | _ => false) && f.state != .s0 then m
       else
       match f.state with
-      | .s0 =>
-        let (m, f) := handleDeprecated m f
-        (match tok with
-         | .rbrace =>
-           (match rest with
-            | [] => m.rejectWith f rest .unexpectedBrace
-            | p :: rest' =>
-              if f.level == 0 then m.rejectWith f rest .unexpectedBrace
-              else
-                let p1 := writeBack p f
-                let p2 := { p1 with cfg := p1.cfg.setLine f.cfg.line }
-                match runValid orc m p2 with
-                | none => (vetoed orc m p2).reject p2 rest'
-                | some m1 => { m1 with frames := { p2 with state := .s0 } :: rest' })
-         | .comment v =>
-           if f.cfg.flags.comments then { m with frames := { f with comment := some v } :: rest }
-           else { m with frames := f :: rest }
-         | .str v =>
-           let r := getoptPath f.cfg v
-           let m := m.addDiags f r.diags
-           (match r.ref with
-            | none =>
-              if f.cfg.flags.ignoreUnknown then { m with frames := { f with opt := none, state := .s10 } :: rest }
-              else if f.cfg.flags.keystrval then
-                -- cfg_addopt: a zeroed string option appended to the array
-                let o : Opt := .mk { name := v, ty := .str } {} [] [] none
-                let cfg' := f.cfg.setOpts (f.cfg.opts ++ [o])
-                { m with frames := { f with cfg := cfg', opt := some ⟨[], f.cfg.opts.length⟩, state := .s1 } :: rest }
-              else m.reject { f with opt := none } rest
-            | some ref =>
-              (match f.cfg.getOpt ref with
-               | none => m.reject f rest
-               | some o =>
-                 let st : PState :=
-                   if o.ty == .sec then (if o.flags.title then .s6 else .s5)
-                   else if o.ty == .func then .s7 else .s1
-                 { m with frames := { f with opt := some ref, state := st } :: rest }))
-         | _ => m.rejectWith f rest .unexpectedToken)
-      | .s1 =>
-        (match f.opt with
-         | none => m.reject f rest
-         | some r =>
-           match f.cfg.getOpt r with
-           | none => m.reject f rest
-           | some o =>
-             let go (reset : Bool) : PM :=
-               let o' := o.setFlags { o.flags with reset := reset, modified := true }
-               let f' := { f with cfg := f.cfg.setOpt r o',
-                                  state := if o.flags.list then .s3 else .s2,
-                                  numValues := if o.flags.list then 0 else f.numValues }
-               { m with frames := f' :: rest }
-             match tok with
-             | .pluseq => if !o.flags.list then m.rejectWith f rest .appendNonList else go false
-             | .eq => go true
-             | _ => m.rejectWith f rest .missingEq)
-      | .s2 =>
-        let isList : Bool := match f.opt.bind f.cfg.getOpt with | some o => o.flags.list | none => false
-        (match tok with
-         | .rbrace =>
-           if isList then
-             (match f.opt, f.opt.bind f.cfg.getOpt with
-              | some r, some o =>
-                if f.numValues == 0 && o.flags.reset then
-                  let (o', ev) := freeValue o
-                  { (m.addCalls ev) with frames := { f with cfg := f.cfg.setOpt r o', state := .s0 } :: rest }
-                else { m with frames := { f with state := .s0 } :: rest }
-              | _, _ => { m with frames := { f with state := .s0 } :: rest })
-           else m.rejectWith f rest .unexpectedToken
-         | .str v => storeValue orc m f rest v (if isList then .s4 else .s0)
-         | _ => m.rejectWith f rest .unexpectedToken)
-      | .s3 =>
-        (match tok with
-         | .lbrace => { m with frames := { f with state := .s2 } :: rest }
-         | .str v => storeValue orc m f rest v .s0
-         | _ => m.rejectWith f rest .unexpectedToken)
-      | .s4 =>
-        (match tok with
-         | .comma => { m with frames := { f with state := .s2 } :: rest }
-         | .rbrace =>
-           (match runValid orc m f with
-            | none => (vetoed orc m f).reject f rest
-            | some m1 => { m1 with frames := { f with state := .s0 } :: rest })
-         | _ => m.rejectWith f rest .unexpectedToken)
-      | .s5 =>
-        (match tok with
-         | .lbrace =>
-           (match f.opt, f.opt.bind f.cfg.getOpt with
-            | some r, some o =>
-              let out := setopt orc m.k f.cfg.info o f.opttitle
-              let f1 := { f with cfg := f.cfg.setOpt r out.opt }
-              let m1 := (m.addCalls out.calls).addDiags f1 out.diags
-              (match out.res with
-               | none => m1.reject f1 rest
-               | some i =>
-                 match out.opt.vals[i]? with
-                 | some (.sec s) =>
-                   let fn := match f1.cfg.info.filename with | some n => some n | none => s.info.filename
-                   let s1 := s.setInfo { s.info with line := f1.cfg.line, filename := fn }
-                   let child : Frame := { cfg := s1, level := f.level + 1, back := some (r, i) }
-                   let f2 := { f1 with opttitle := none }
-                   { m1 with frames := child :: f2 :: rest, maxDepth := max m1.maxDepth (rest.length + 2) }
-                 | _ => m1.reject f1 rest)
-            | _, _ => m.reject f rest)
-         | _ => m.rejectWith f rest .missingBrace)
-      | .s6 =>
-        (match tok with
-         | .str v => { m with frames := { f with opttitle := some v, state := .s5 } :: rest }
-         | _ => m.rejectWith f rest .missingTitle)
-      | .s7 =>
-        (match tok with
-         | .lparen => { m with frames := { f with state := .s8 } :: rest }
-         | _ => m.rejectWith f rest .missingParen)
-      | .s8 =>
-        (match tok with
-         | .rparen => callFunction orc m f rest
-         | .str v => { m with frames := { f with funcargs := f.funcargs ++ [v], state := .s9 } :: rest }
-         | _ => m.rejectWith f rest .funcSyntax)
-      | .s9 =>
-        (match tok with
-         | .rparen => callFunction orc m f rest
-         | .comma => { m with frames := { f with state := .s8 } :: rest }
-         | _ => m.rejectWith f rest .funcSyntax)
-      | .s10 =>
-        let f := { f with comment := none }
-        (match tok with
-         | .pluseq => { m with frames := { f with state := .s14 } :: rest }
-         | .eq => { m with frames := { f with state := .s14 } :: rest }
-         | .lparen => { m with frames := { f with ignore := .rparen, state := .s13 } :: rest }
-         | .lbrace => { m with frames := { f with depth := 1, state := .s12 } :: rest }
-         | .str _ => { m with frames := { f with state := .s11 } :: rest }
-         | _ => m.rejectWith f rest .unexpectedToken)
-      | .s11 =>
-        (match tok with
-         | .lbrace => { m with frames := { f with depth := 1, state := .s12 } :: rest }
-         | _ => m.rejectWith f rest .unexpectedToken)
-      | .s12 =>
-        (match tok with
-         | .lbrace => { m with frames := { f with depth := f.depth + 1 } :: rest }
-         | .rbrace =>
-           if f.depth ≤ 1 then { m with frames := { f with depth := 0, state := .s0 } :: rest }
-           else { m with frames := { f with depth := f.depth - 1 } :: rest }
-         | _ => m)
-      | .s13 =>
-        let hit : Bool := match tok, f.ignore with
-          | .rparen, .rparen => true
-          | .rbrace, .rbrace => true
-          | _, _ => false
-        if hit then { m with frames := { f with ignore := .none, state := .s0 } :: rest } else m
-      | .s14 =>
-        (match tok with
-         | .lbrace => { m with frames := { f with ignore := .rbrace, state := .s13 } :: rest }
-         | .str _ => { m with frames := { f with state := .s0 } :: rest }
-         | _ => m.rejectWith f rest .unexpectedToken)
+      | .s0 => step_s0 orc m f rest tok
+      | .s1 => step_s1 orc m f rest tok
+      | .s2 => step_s2 orc m f rest tok
+      | .s3 => step_s3 orc m f rest tok
+      | .s4 => step_s4 orc m f rest tok
+      | .s5 => step_s5 orc m f rest tok
+      | .s6 => step_s6 orc m f rest tok
+      | .s7 => step_s7 orc m f rest tok
+      | .s8 => step_s8 orc m f rest tok
+      | .s9 => step_s9 orc m f rest tok
+      | .s10 => step_s10 orc m f rest tok
+      | .s11 => step_s11 orc m f rest tok
+      | .s12 => step_s12 orc m f rest tok
+      | .s13 => step_s13 orc m f rest tok
+      | .s14 => step_s14 orc m f rest tok
 
 /-- the machine over a fixed token list (one buffer, no includes) -/
 def parseToks (orc : Oracle) (m : PM) (ts : List (Tok × Nat)) : PM :=
